@@ -334,6 +334,8 @@ def a8(ctx):
     mods = (CARD, COLL, "xandikos.vcard")
     for mname in mods:
         for fi in ctx.P.funcs_in_module(mname):
+            if ctx.absorbed(fi):
+                continue
             n += 1
             bad = [src(c) for c in walk_local(fi.node) if isinstance(c, ast.Call) and (dotted(c.func) or "").startswith("unicodedata.")]
             bad += [src(c) for c in walk_local(fi.node) if isinstance(c, ast.Call) and isinstance(c.func, ast.Attribute)
